@@ -53,6 +53,26 @@ def wire_of(msg):
 
 
 # (class, builder, args-thunk, {decoded attr: expected}, description)
+PUBLIC_ALIAS = {"_should_remove_handler": "should_remove_handler", "_spa_identifier": "spa_identifier", "_spa_name": "spa_name",
+                "_client_identifier": "client_identifier", "_error_count": "total_error_count"}
+
+
+def read_field(interp, rx, attr):
+    """decoded field of a handler object: the attribute, or - when a refactoring moved it - the public
+    property that exposes it (evaluated by interpretation)"""
+    if attr in rx.attrs:
+        return rx.attrs[attr]
+    for cand in (attr, PUBLIC_ALIAS.get(attr), attr.lstrip("_")):
+        if not cand:
+            continue
+        try:
+            interp.steps = 0
+            return interp.getattr(rx, cand)
+        except (PyRaise, Undecided):
+            continue
+    return "<unset>"
+
+
 def message_table():
     rem = [(1, sfield("days0", 16)), (3, sfield("days1", 16))]
     ch = [(F("pos0", 16), SymBytes.pack(">H", [F("w0", 16)])), (F("pos1", 16), SymBytes.pack(">H", [F("w1", 16)]))]
@@ -87,7 +107,7 @@ def message_table():
         ("GeckoRemindersProtocolHandler", "response", [rem], {"reminders": ("reminders", [(1, "days0"), (3, "days1")])}, "RMREQ"),
         ("GeckoUpdateFirmwareProtocolHandler", "request", [F("seq", 8)], {"_sequence": ("seq", 8)}, "UPDTS"),
         ("GeckoUpdateFirmwareProtocolHandler", "response", [], {"_should_remove_handler": True}, "SUPDT"),
-        ("GeckoRFErrProtocolHandler", "response", [], {"_error_count": 1}, "RFERR"),
+        ("GeckoRFErrProtocolHandler", "response", [], {"total_error_count": 1}, "RFERR"),
         ("GeckoPartialStatusBlockProtocolHandler", "report_changes", [None, ch],
          {"changes": ("changes", [("pos0", "w0"), ("pos1", "w1")])}, "STATP"),
         ("GeckoHelloProtocolHandler", "broadcast", [], {"was_broadcast_discovery": True}, "HELLO 1"),
@@ -244,7 +264,7 @@ def round_trips(ctx, repo):
         except Undecided as e:
             raise AnalysisError(f"{key}: cannot interpret the decoder: {e}")
         for attr, exp in expect.items():
-            got = rx.attrs.get(attr, "<unset>")
+            got = read_field(interp, rx, attr)
             ok, why = compare(exp, got)
             ctx.ob("R2", f"{key}::{attr}", ok,
                    f"{desc}: field `{attr}` does not round-trip through {cname}.{builder} -> handle: {why}", repo.method(cname, "handle").loc,
@@ -309,9 +329,9 @@ def round_trips(ctx, repo):
                     raise AnalysisError(f"{cname} [{dx} then {dy}]: {e}")
                 n_pairs += 1
                 for attr, exp in ey.items():
-                    if attr in ("_should_remove_handler", "_error_count") or (isinstance(exp, tuple) and exp and exp[0] in ("changes", "reminders")):
+                    if attr in ("_should_remove_handler", "_error_count", "total_error_count") or (isinstance(exp, tuple) and exp and exp[0] in ("changes", "reminders")):
                         continue  # accumulating / life-cycle attributes are C05 / C11 / C20 matters
-                    got = rx.attrs.get(attr, "<unset>")
+                    got = read_field(interp, rx, attr)
                     ok, why = compare(exp, got)
                     ctx.ob("R2", f"{cname}[{dx} then {dy}]::{attr}", ok,
                            f"decoding {dy} after {dx} on the same (long-lived) {cname} instance gives `{attr}` wrong: {why} - state decoded from the earlier message survives", repo.method(cname, "handle").loc)
